@@ -528,3 +528,60 @@ func H17Text() {
 	}
 	vndObserveStr("text", buf.String())
 }
+
+// H17Builtin: the library's built-in tests (UTest, TTest) judge the RETAINED values (those
+// inside the outlier fences), and report empty, single-value and all-equal samples as the
+// documented errors, not as numbers. Values are chosen by the solver from short lists
+// (concrete executions: the tests' numerics are C11/C12's subject); the reference is the
+// statistics package applied to the retained values.
+func H17Builtin() {
+	mk := func(vals []float64) *Metrics {
+		m := &Metrics{Unit: "ns/op", Values: append([]float64(nil), vals...)}
+		m.computeStats()
+		return m
+	}
+	shapes := [][]float64{
+		{10, 11, 12, 13, 14, 15, 16, 100}, // one value outside the fences
+		{10, 11, 12, 13, 14, 15, 16, 17},
+		{5, 5, 5, 5},
+		{7},
+		{},
+		{20, 21, 22, 23, 24, 25, 26, 27},
+	}
+	a := shapes[vndChoice("old", len(shapes))]
+	b := shapes[vndChoice("new", len(shapes))]
+	old, new := mk(a), mk(b)
+	vndReach("h17:builtin")
+	if len(old.RValues) < len(old.Values) || len(new.RValues) < len(new.Values) {
+		vndReach("h17:builtin-outlier")
+	}
+	pu, eu := UTest(old, new)
+	wu, werr := stats.MannWhitneyUTest(old.RValues, new.RValues, stats.LocationDiffers)
+	if werr != nil {
+		vndReach("h17:builtin-error")
+		vndAssert(eu != nil && pu == -1, "u-test-reports-degenerate-samples-as-errors")
+		switch werr {
+		case stats.ErrSampleSize:
+			vndAssert(eu == ErrSampleSize, "u-test-error-kind")
+		case stats.ErrSamplesEqual:
+			vndAssert(eu == ErrSamplesEqual, "u-test-error-kind")
+		}
+	} else {
+		vndAssert(eu == nil && pu == wu.P, "u-test-judges-the-retained-values")
+	}
+	pt, et := TTest(old, new)
+	wt, werr := stats.TwoSampleWelchTTest(stats.Sample{Xs: old.RValues}, stats.Sample{Xs: new.RValues}, stats.LocationDiffers)
+	if werr != nil {
+		vndAssert(et != nil && pt == -1, "t-test-reports-degenerate-samples-as-errors")
+		switch werr {
+		case stats.ErrSampleSize:
+			vndAssert(et == ErrSampleSize, "t-test-error-kind")
+		case stats.ErrZeroVariance:
+			vndAssert(et == ErrZeroVariance, "t-test-error-kind")
+		}
+	} else {
+		vndAssert(et == nil && pt == wt.P, "t-test-judges-the-retained-values")
+	}
+	pn, en := NoDeltaTest(old, new)
+	vndAssert(pn == -1 && en == nil, "no-test-gives-no-p-value")
+}
